@@ -24,9 +24,11 @@ def main():
         pf.write(s + "\n")
         pf.flush()
 
+    import faulthandler
     for k in range(start, len(jobs)):
         j = jobs[k]
         mark("BEGIN %d" % k)
+        faulthandler.dump_traceback_later(30, exit=True)      # a job that does not return within 30 s ends the process
         try:
             if j["kind"] == "history":
                 h = j["history"]
@@ -59,6 +61,7 @@ def main():
             mark("END %d ok" % k)
         except Exception as ex:  # noqa
             mark("END %d exc %r" % (k, repr(ex)[:100]))
+        faulthandler.cancel_dump_traceback_later()
     mark("DONE")
 
 
